@@ -155,8 +155,20 @@ theorem toBase16_two (n : Nat) (h1 : 16 ≤ n) (h2 : n < 256) :
   rw [digits_of_ge 16 n (by omega) h1, digits_of_lt 16 (n / 16) (by omega) (by omega)]
   rfl
 
+theorem toBase16_three (n : Nat) (h1 : 256 ≤ n) (h2 : n < 4096) :
+    toBase 16 n = [digitChar (n / 16 / 16), digitChar (n / 16 % 16), digitChar (n % 16)] := by
+  unfold toBase
+  rw [digits_of_ge 16 n (by omega) (by omega), digits_of_ge 16 (n / 16) (by omega) (by omega),
+    digits_of_lt 16 (n / 16 / 16) (by omega) (by omega)]
+  rfl
+
 theorem encode_dotOr (v : Int) (hv : NumOk v) : encodeIntOrStr (dotOr v) = .ok (tok v) := by
-  rcases tok_cases v hv with ⟨hv1, e⟩ | ⟨h0, h15, hd, e⟩ | ⟨h16, h255, _, _, _, e⟩
+  rcases tok_cases v hv with ⟨hv1, e⟩ | ⟨h0, h15, hd, e⟩ | ⟨h16, h255, _, _, _, e⟩ | ⟨h256, h4095, _, _, _, _, e⟩
+  rotate_right
+  · rw [e, dotOr, if_neg (by omega)]
+    simp only [encodeIntOrStr, asInt?]
+    rw [if_neg (by omega), if_neg (by omega), if_pos h4095, hexTail, if_neg (by omega),
+      toBase16_three _ (by omega) (by omega)]
   · rw [e, dotOr, if_pos hv1]; rfl
   · rw [e, dotOr, if_neg (by omega)]
     simp only [encodeIntOrStr, asInt?]
